@@ -1,9 +1,10 @@
 """Object-level facts: assemble every lib asm unit with the compile database's exact nasm command,
 read sections / symbols / relocations, disassemble, and run the abstract interpreter (asmint) over every
-function.  The result (small, per function) is cached under the tree key; objects are not kept."""
-import os, re, subprocess, sys
+function, iterating callee summaries to a fixpoint.  The per-function results (small) are cached under the tree
+key; objects are not kept."""
+import os, re, subprocess, sys, time
 from concurrent.futures import ProcessPoolExecutor
-from . import build
+from . import build, asmint
 from .build import AnalysisBroken
 
 _mem = {}
@@ -20,20 +21,146 @@ def _readelf_sections(path):
     return secs
 
 
-def _stage_objects():
-    objs = build.build_asm_objects()
+def _line_table(path):
+    """address -> (file, line) from DWARF (nasm -gdwarf)"""
+    out = subprocess.run(['objdump', '--dwarf=decodedline', path], capture_output=True, text=True).stdout
+    tab = {}
+    cur = None
+    for line in out.splitlines():
+        f = line.split()
+        if len(f) >= 3 and f[-1] != 'x' and re.match(r'^0x[0-9a-f]+$', f[2]) and f[1].isdigit():
+            tab.setdefault(int(f[2], 16), (f[0], int(f[1])))
+        elif len(f) >= 4 and re.match(r'^0x[0-9a-f]+$', f[2]) and f[1].isdigit():
+            tab.setdefault(int(f[2], 16), (f[0], int(f[1])))
+    return tab
+
+
+def _worker(arg):
+    obj, rel, summaries, only = arg
+    insns, labels, funcs, syms = asmint.parse_obj(obj)
+    th = asmint.thresholds_for(insns)
+    lt = None
     res = {}
-    for src, obj in objs.items():
-        rel = os.path.relpath(src, build.REPO)
-        res[rel] = {'sections': _readelf_sections(obj), 'obj': obj}
-    return res
+    for name, entry in funcs.items():
+        if only is not None and name not in only:
+            continue
+        if entry not in insns:
+            res[name] = {'name': name, 'issues': [('noentry', entry, '')], 'calls': {}, 'exits': [], 'ninsn': 0,
+                         'assumed': [], 'stores': [], 'notes': [], 'special': []}
+            continue
+        r = dict(asmint.analyse_func(name, entry, insns, summaries, th))
+        # map interesting addresses to source lines
+        addrs = set(e['a'] for e in r['exits']) | set(s['a'] for s in r['stores']) | set(r['assumed']) | \
+            set(i[1] for i in r['issues'] if isinstance(i[1], int)) | set(x[0] for x in r['special']) | {entry}
+        if lt is None:
+            lt = _line_table(obj)
+        lines = {}
+        for a in addrs:
+            if a in lt:
+                lines[a] = '%s:%d' % (lt[a][0], lt[a][1])
+            txt = insns[a]['txt'] if a in insns else ''
+            lines.setdefault(a, rel)
+            lines[a] = lines[a] + '  [' + txt + ']'
+        r['lines'] = lines
+        res[name] = r
+    symout = {n: s for n, s in syms.items() if s['type'] in ('FUNC', 'OBJECT', 'NOTYPE') and s['bind'] in ('GLOBAL', 'WEAK')}
+    # instruction inventory for ISA / special-instruction rules: per function reachable mnemonics with encoding class
+    return rel, res, symout, _readelf_sections(obj), {n: e for n, e in funcs.items()}
+
+
+def _summary(r):
+    clob = set()
+    vecW = set()
+    unclean = set()
+    df = 0
+    nex = 0
+    for e in r['exits']:
+        nex += 1
+        for reg, _ in e['bad']:
+            if reg != 'rsp':
+                clob.add(reg)
+        vecW |= set(e['vec'])
+        unclean |= set(e['unclean'])
+        if e['df'] != 0:
+            df = 2
+    sp_bad = any(reg == 'rsp' for e in r['exits'] for reg, _ in e['bad'])
+    return {'clob': sorted(clob), 'vecW': sorted(vecW), 'vecMC': sorted(set(range(32)) - unclean) if nex else [],
+            'df': df, 'sp_bad': sp_bad}
+
+
+def _stage():
+    t0 = time.time()
+    objs = build.build_asm_objects()
+    rels = {src: os.path.relpath(src, build.REPO) for src in objs}
+    t1 = time.time()
+    summaries = {}
+    results = {}
+    symtab = {}
+    sections = {}
+    funcs_of = {}
+    only = {src: None for src in objs}
+    it = 0
+    with ProcessPoolExecutor(build.NPROC) as ex:
+        while True:
+            it += 1
+            tasks = [(objs[src], rels[src], summaries, only[src]) for src in objs if only[src] is None or only[src]]
+            # big objects first
+            tasks.sort(key=lambda t: -os.path.getsize(t[0]))
+            out = list(ex.map(_worker, tasks, chunksize=1))
+            for rel, res, syms, secs, fns in out:
+                results.setdefault(rel, {}).update(res)
+                symtab[rel] = syms
+                sections[rel] = secs
+                funcs_of[rel] = fns
+            new = {}
+            for rel, fr in results.items():
+                for name, r in fr.items():
+                    s = _summary(r)
+                    if s['clob'] or s['vecW'] or s['df'] or len(s['vecMC']) != 0 or s['sp_bad']:
+                        new[name] = s
+            changed = {n for n in set(new) | set(summaries) if new.get(n) != summaries.get(n)}
+            summaries = new
+            if not changed or it >= 8:
+                break
+            # re-analyse callers of changed functions
+            only = {}
+            for src in objs:
+                rel = rels[src]
+                need = set()
+                for name, r in results.get(rel, {}).items():
+                    if any(c in changed for c in r['calls']):
+                        need.add(name)
+                only[src] = need
+            if not any(only.values()):
+                break
+    return {'results': results, 'symbols': symtab, 'sections': sections, 'summaries': summaries, 'iterations': it,
+            'time_nasm': round(t1 - t0, 1), 'time_analysis': round(time.time() - t1, 1)}
+
+
+def stage():
+    if 'stage' not in _mem:
+        _mem['stage'] = build.cached('asm_stage', _stage)
+    return _mem['stage']
 
 
 def sections():
     """{asm source (relative to /repo): [section dicts]}"""
-    def prod():
-        st = _stage_objects()
-        return {k: v['sections'] for k, v in st.items()}
-    if 'sections' not in _mem:
-        _mem['sections'] = build.cached('asm_sections', prod)
-    return _mem['sections']
+    return stage()['sections']
+
+
+def all_functions():
+    """yield (rel, name, result)"""
+    st = stage()
+    for rel in sorted(st['results']):
+        for name in sorted(st['results'][rel]):
+            yield rel, name, st['results'][rel][name]
+
+
+def global_symbols():
+    """{symbol: (rel, sym dict)} for defined global symbols of asm objects"""
+    out = {}
+    for rel, syms in stage()['symbols'].items():
+        for n, s in syms.items():
+            if s['ndx'] != 'UND':
+                out[n] = (rel, s)
+    return out
